@@ -580,7 +580,7 @@ func (e *engine) oracleMirror(o *Out) {
 // ---------------------------------------------------------------- generators
 
 var gEps = []string{"e", "ep", "é✓"}
-var counts = []string{"1", "2", "3", "12", "1", "2", "0", "-1", "abc", "", "+4", "007", "9223372036854775808", "1_0", " 1"}
+var counts = []string{"1", "2", "12", "0", "0", "0", "0", "-1", "abc", "", "+4", "007", "9223372036854775808", "1_0", " 1"}
 var epIDs = []string{"e", "ep", "é✓", "", "a b"}
 var addrs = []string{"10.0.0.1:8000", "10.0.0.2:8000", "h:1", "x"}
 
@@ -638,7 +638,7 @@ func genWF(r *rand.Rand, c int, tier string, w *bufio.Writer) {
 	}
 	valid := r.Intn(3) > 0 // most cases use parsable positive counts only
 	count := func() string {
-		if valid || r.Intn(3) > 0 {
+		if valid || r.Intn(2) > 0 {
 			return strconv.Itoa(1 + r.Intn(3))
 		}
 		return Pick(r, counts)
